@@ -323,6 +323,13 @@ func runC16(rc *RunCtx) {
 			if l <= 400 {
 				c16Burn(rc, bz, class)
 			}
+			// the same bytes behind a small version word (formats that switch on the version must still be exact)
+			if l >= 4 && k%3 == 0 {
+				vb := append([]byte(nil), bz...)
+				copy(vb[0:4], [][]byte{{0, 0, 0, 0}, {0, 0, 0, 1}, {0, 0, 0, 2}, {1, 0, 0, 0}, {0, 0, 0, 3}, {0xff, 0xff, 0xff, 0xff}}[(k/3)%6])
+				c16Message(rc, vb, "version-prefixed")
+				c16Burn(rc, vb, "version-prefixed")
+			}
 		}
 	}
 	for k := 0; k < rc.Pick(30000, 400000); k++ {
